@@ -694,7 +694,8 @@ def _gs_adjacent(geom, w):
 _P_GS2 = ([{"geom": "chain", "where": w, "opt": o, "sm": sm, "ip": True,
             "_tiers": ("quick", "thorough") if sm == 0.0 else ("thorough",)}
            for w in _wheres(3, 2) if _gs_adjacent("chain", w) for o in _GS_OPTS for sm in (0.0, "default")]
-          + [{"geom": "chain", "where": w, "opt": o, "sm": 0.0, "ip": False}
+          + [{"geom": "chain", "where": w, "opt": o, "sm": 0.0, "ip": False,
+              "_tiers": ("quick", "thorough") if (w, o) in (((0, 1), "plain"), ((2, 1), "transpose"), ((0, 1), "dagger")) else ("thorough",)}
              for w in ((0, 1), (2, 1)) for o in _GS_OPTS]
           + [{"geom": "star", "where": w, "opt": o, "sm": 0.0, "ip": True}        # hub with three gauged bonds
              for w, o in (((1, 3), "plain"), ((3, 1), "transpose"), ((0, 1), "dagger"))]
@@ -794,7 +795,8 @@ def gate_simple_long_range(mk, geom, where, opt, path):
                 mk.eq(f"{lab}: [numeric-only supplement] gauge on {k} (off the path) unchanged", gauges[k], g0[k])
 
 
-@obligation(PROP, params=[{"where": w, "opt": o} for w in ((0, 1), (1, 0), (1, 2), (2, 1)) for o in _GS_OPTS],
+@obligation(PROP, params=[{"where": w, "opt": o, "_tiers": ("quick", "thorough") if w in ((0, 1), (2, 1)) else ("thorough",)}
+                          for w in ((0, 1), (1, 0), (1, 2), (2, 1)) for o in _GS_OPTS],
             rounds=2, timeout_s=400, wall_s=300, max_rows=80000)
 def gate_simple_renorm(mk, where, opt):
     """gate_simple_ with the DEFAULT renorm=True on a nearest-neighbour pair: the new bond gauge is the vector of new
